@@ -42,6 +42,9 @@ def c02(ctx):
     ct = ctx.build(tags="verif,constantTime")
     ctx.run_vh("alg", ["-in", bh, "-scalars", "-bindings", 3 if q else 12], binary=ct)
     ctx.run_vh("alg", ["-in", sim, "-scalars", "-bindings", 2 if q else 6], binary=ct)
+    # exact: kyber's own mod.Int over Z_m, m = 2..17, every value predicted by TLC (spec/TinyField.tla)
+    import props_xof
+    props_xof.tiny_scalar(ctx)
     return ctx.finish("model_checking",
                       "behaviour = scalar program (all ops x all receiver/operand aliasings, exhaustive to length 2, simulated to length 9) x scalar implementation x binding of u; distinct = (implementation, binding, behaviour, step); every step compares the receiver's encoding with eval(abstract value, u) mod q computed with math/big, all other registers byte-identical, Equal partition",
                       ASSUME_LIFT, exhaustive=False)
@@ -88,18 +91,23 @@ def c03(ctx):
 
 def c06(ctx):
     q = ctx.quick
-    consts = {"PreOps": False, "CMax": 6, "DMax": 6}
-    ctx.tlc("KyberPairing", cfg(constants=consts, invariants=["TypeOK", "PairLaws"], view="View"), name="C06_mc")
+    plain = {"PreOps": False, "InPlaceOps": False, "CMax": 6, "DMax": 6}
+    ctx.tlc("KyberPairing", cfg(constants=plain, invariants=["TypeOK", "PairLaws"], view="View"), name="C06_mc")
     out = os.path.join(ctx.tmp, "C06_bfs.ndjson")
-    ctx.tlc("KyberPairing", cfg(constants=consts, invariants=["Emit"]), name="C06_gen_bfs", collect=out)
+    ctx.tlc("KyberPairing", cfg(constants=plain, invariants=["Emit"]), name="C06_gen_bfs", collect=out)
     ctx.run_vh("pairing", ["-in", out, "-bindings", 2 if q else 4, "-max", 500 if q else 0])
-    consts2 = dict(consts, PreOps=True)
+    full = dict(plain, PreOps=True, InPlaceOps=True)
+    acc = dict(plain, InPlaceOps=True)
     if not q:
-        ctx.tlc("KyberPairing", cfg(constants=consts2, invariants=["TypeOK", "PairLaws"], view="View"), name="C06_mc_preops")
-    sim = os.path.join(ctx.tmp, "C06_sim.ndjson")
-    ctx.tlc("KyberPairing", cfg(constants=consts2, invariants=["Emit"]), name="C06_gen_sim", collect=sim,
-            simulate="num=%d" % (300 if q else 20000), depth=8, workers=1)
-    ctx.run_vh("pairing", ["-in", sim, "-bindings", 2 if q else 4, "-max", 0])
+        ctx.tlc("KyberPairing", cfg(constants=acc, invariants=["TypeOK", "PairLaws"], view="View"), name="C06_mc_inplace")
+        out2 = os.path.join(ctx.tmp, "C06_bfs_inplace.ndjson")
+        ctx.tlc("KyberPairing", cfg(constants=acc, invariants=["Emit"]), name="C06_gen_bfs_inplace", collect=out2)
+        ctx.run_vh("pairing", ["-in", out2, "-bindings", 2, "-max", 40000])
+    for name, consts, num in (("acc", acc, 1500 if q else 20000), ("full", full, 300 if q else 20000)):
+        sim = os.path.join(ctx.tmp, "C06_sim_%s.ndjson" % name)
+        ctx.tlc("KyberPairing", cfg(constants=consts, invariants=["Emit"]), name="C06_gen_sim_" + name, collect=sim,
+                simulate="num=%d" % num, depth=9, workers=1)
+        ctx.run_vh("pairing", ["-in", sim, "-bindings", 2 if q else 4, "-max", 0])
     return ctx.finish("model_checking",
                       "behaviour = operand-class pool for G1 x G2 x scalar, optional arithmetic pre-ops leaving non-normalised operands, two pairings / GT operations, then ValidatePairing and GT equality; exhaustive without pre-ops (6910 behaviours), simulated with pre-ops; x 5 pairing suites x bindings of u; oracle: the bilinear form over atom pairings e(B1,B2), e(B1,H2), e(H1,B2), e(H1,H2) evaluated by double-and-add in GT",
                       ASSUME_LIFT + ["the four atom pairings are computed with the suite's own Pair; bilinearity is what relates every other pairing to them"], exhaustive=False)
